@@ -92,11 +92,13 @@ package fingerprint
 //@ func (*ChecksumChecker).OnError
 //@   modifies heap, fs_exists, fs_ver
 //@   preserves $RUNDATA
-//@   ensures result == nil && len(t.Sources) != 0 ==> !fs_exists(cksumPath(checker, t))             [C04]
+//@   ensures result == nil && len(t.Sources) != 0 && !checker.dry ==> !fs_exists(cksumPath(checker, t))   [C04]
+//@   ensures checker.dry ==> unchanged(fs_exists) && unchanged(fs_ver)         -- a dry run deletes nothing   [C12]
 //@ func (*TimestampChecker).OnError
 //@   modifies heap, fs_exists, fs_ver
 //@   preserves $RUNDATA
-//@   ensures result == nil && len(t.Sources) != 0 ==> !fs_exists(stampPath(checker, t))             [C04]
+//@   ensures result == nil && len(t.Sources) != 0 && !checker.dry ==> !fs_exists(stampPath(checker, t))   [C04]
+//@   ensures checker.dry ==> unchanged(fs_exists) && unchanged(fs_ver)         -- a dry run deletes nothing   [C12]
 
 //@ func NewChecksumChecker
 //@   pure allocates
